@@ -56,7 +56,7 @@ theorem c12_answer_matches (s : Stack) (e : SDEntry) (i : Nat) (x : Instance) (h
 requester's address, provided the instance is still running and ready -/
 theorem c12_answer_content (s : Stack) (i : Nat) (x : Instance) (a : Addr) (tid : Nat) (hx : s.getInst i = some x)
     (hrun : x.task = some tid) (hready : x.canAnswer = true) :
-    s.runCb (.sendOfferTo i a) = s.queueSend (x.service.createOfferEntry s.tm.announceTtl) (some a) := by
+    s.runCb (.sendOfferTo i a) = (s.logOffer i (.offer true)).queueSend (x.service.createOfferEntry s.tm.announceTtl) (some a) := by
   simp [runCb, sendOffer, hx, hrun, hready]
 
 /-- stopped after the request (or restarted and again in the initial wait phase): the answer is dropped -/
